@@ -236,6 +236,212 @@ func genTokens(repo string) (string, error) {
 	}
 	sb.WriteString("].\n")
 
+	// maxValueDepth in parser.go
+	_, pf0, err := gen.ParseFile(filepath.Join(dir, "parser.go"))
+	if err != nil {
+		return "", err
+	}
+	depth := ""
+	for _, d := range pf0.Decls {
+		gd, ok := d.(*ast.GenDecl)
+		if !ok || gd.Tok != token.CONST {
+			continue
+		}
+		for _, sp := range gd.Specs {
+			vs := sp.(*ast.ValueSpec)
+			for i, n := range vs.Names {
+				if n.Name == "maxValueDepth" && i < len(vs.Values) {
+					if bl, ok := vs.Values[i].(*ast.BasicLit); ok && bl.Kind == token.INT {
+						depth = bl.Value
+					}
+				}
+			}
+		}
+	}
+	if depth == "" {
+		return "", fmt.Errorf("parser.go: const maxValueDepth (integer literal) not found")
+	}
+	fmt.Fprintf(&sb, "(* parser.go: const maxValueDepth *)\nDefinition max_value_depth : N := %s.\n", depth)
+	// every call of popValue inside popValue must be guarded by the depth check: count recursive calls and depth tests
+	rec, guard := 0, 0
+	for _, d := range pf0.Decls {
+		fd, ok := d.(*ast.FuncDecl)
+		if !ok || fd.Name.Name != "popValue" {
+			continue
+		}
+		ast.Inspect(fd.Body, func(n ast.Node) bool {
+			switch x := n.(type) {
+			case *ast.CallExpr:
+				if se, ok := x.Fun.(*ast.SelectorExpr); ok && se.Sel.Name == "popValue" {
+					rec++
+				}
+			case *ast.BinaryExpr:
+				if id, ok := x.Y.(*ast.Ident); ok && id.Name == "maxValueDepth" {
+					guard++
+				}
+			}
+			return true
+		})
+	}
+	fmt.Fprintf(&sb, "(* popValue: recursive calls, comparisons against maxValueDepth *)\nDefinition pop_value_recursive_calls : N := %d.\nDefinition pop_value_depth_guards : N := %d.\n", rec, guard)
+
+	// string literals of the functions that build diagnostics, in source order: the model formats
+	// its messages from these, so a reworded message follows the code
+	sb.WriteString("(* string literals per function, in source order: (file:function, literals as bytes) *)\n")
+	sb.WriteString("Definition func_strings : list (string * list (list N)) := [\n")
+	firstS := true
+	for _, ff := range [][2]string{
+		{"lexer.go", "unexpectedEOF"}, {"lexer.go", "NextToken"}, {"lexer.go", "lexNumber"}, {"lexer.go", "lexString"},
+		{"lexer.go", "lexRegex"}, {"lexer.go", "lexEscape"},
+		{"errors.go", "msg"}, {"token.go", "String"}, {"parser.go", "popValue"}, {"parser.go", "fragmentsToFile"},
+	} {
+		_, pf, err := gen.ParseFile(filepath.Join(dir, ff[0]))
+		if err != nil {
+			return "", err
+		}
+		var lits []string
+		seen := false
+		for _, d := range pf.Decls {
+			fd, ok := d.(*ast.FuncDecl)
+			if !ok || fd.Body == nil || fd.Name.Name != ff[1] {
+				continue
+			}
+			// token.go has two String methods: take the one on Token (receiver type Token)
+			if ff[1] == "String" {
+				if fd.Recv == nil || len(fd.Recv.List) != 1 {
+					continue
+				}
+				if id, ok := fd.Recv.List[0].Type.(*ast.Ident); !ok || id.Name != "Token" {
+					continue
+				}
+			}
+			seen = true
+			ast.Inspect(fd.Body, func(n ast.Node) bool {
+				if ff[1] == "String" {
+					// every literal of Token.String (the "..." of the cut is not a call argument)
+					if bl, ok := n.(*ast.BasicLit); ok && bl.Kind == token.STRING {
+						if v, err := strconv.Unquote(bl.Value); err == nil {
+							lits = append(lits, v)
+						}
+					}
+					return true
+				}
+				// elsewhere: only literals passed directly to errf / Sprintf / errors.New / strings.Join
+				ce, ok := n.(*ast.CallExpr)
+				if !ok {
+					return true
+				}
+				name := ""
+				switch f := ce.Fun.(type) {
+				case *ast.Ident:
+					name = f.Name
+				case *ast.SelectorExpr:
+					name = f.Sel.Name
+				}
+				if name != "errf" && name != "Sprintf" && name != "New" && name != "Join" {
+					return true
+				}
+				for _, a := range ce.Args {
+					if bl, ok := a.(*ast.BasicLit); ok && bl.Kind == token.STRING {
+						if v, err := strconv.Unquote(bl.Value); err == nil {
+							lits = append(lits, v)
+						}
+					}
+				}
+				return true
+			})
+		}
+		if !seen {
+			return "", fmt.Errorf("%s: function %s not found", ff[0], ff[1])
+		}
+		if !firstS {
+			sb.WriteString(";\n")
+		}
+		firstS = false
+		fmt.Fprintf(&sb, "  (%s, [", gen.CoqString(ff[0]+":"+ff[1]))
+		for i, l := range lits {
+			if i > 0 {
+				sb.WriteString("; ")
+			}
+			sb.WriteString(gen.NList([]byte(l)))
+		}
+		sb.WriteString("])")
+	}
+	sb.WriteString("\n].\n")
+	// the expected token types of every unexpectedToken(...) / popType(...) call, per function, in source order
+	sb.WriteString("(* expected token types of the unexpectedToken / popType calls per function, in source order *)\n")
+	sb.WriteString("Definition walker_expected : list (string * list (list N)) := [\n")
+	firstE := true
+	for _, d := range pf0.Decls {
+		fd, ok := d.(*ast.FuncDecl)
+		if !ok || fd.Body == nil {
+			continue
+		}
+		var sets [][]int
+		bad := ""
+		ast.Inspect(fd.Body, func(n ast.Node) bool {
+			ce, ok := n.(*ast.CallExpr)
+			if !ok {
+				return true
+			}
+			name := ""
+			switch f := ce.Fun.(type) {
+			case *ast.Ident:
+				name = f.Name
+			case *ast.SelectorExpr:
+				name = f.Sel.Name
+			}
+			var args []ast.Expr
+			switch name {
+			case "unexpectedToken":
+				if len(ce.Args) >= 1 {
+					args = ce.Args[1:]
+				}
+			case "popType":
+				args = ce.Args
+			default:
+				return true
+			}
+			set := []int{}
+			for _, a := range args {
+				id, ok := a.(*ast.Ident)
+				if !ok {
+					bad = fd.Name.Name
+					return true
+				}
+				v, known := code[id.Name]
+				if !known {
+					// popType's own body passes its parameter on: not a site
+					return true
+				}
+				set = append(set, v)
+			}
+			if len(set) > 0 {
+				sets = append(sets, set)
+			}
+			return true
+		})
+		if bad != "" {
+			return "", fmt.Errorf("parser.go: %s passes a non-identifier as expected token type", bad)
+		}
+		if len(sets) == 0 {
+			continue
+		}
+		if !firstE {
+			sb.WriteString(";\n")
+		}
+		firstE = false
+		fmt.Fprintf(&sb, "  (%s, [", gen.CoqString(fd.Name.Name))
+		for i, st := range sets {
+			if i > 0 {
+				sb.WriteString("; ")
+			}
+			sb.WriteString(ilist(st))
+		}
+		sb.WriteString("])")
+	}
+	sb.WriteString("\n].\n")
+
 	sb.WriteString("(* explicit panic( calls per anchored file: (file, enclosing function) *)\n")
 	sb.WriteString("Definition panic_sites : list (string * string) := [")
 	firstP := true
